@@ -323,6 +323,16 @@ where
         }
     }
 
+    /// Checks if `symbol` occurs in the sequence, i.e., if it has a (non empty) code.
+    /// The comparison is done before narrowing `symbol` to `usize`.
+    #[inline(always)]
+    fn has_code(&self, symbol: T) -> bool {
+        match symbol.to_usize() {
+            Some(s) => s < self.codes_encode.len() && self.codes_encode[s].len != 0,
+            None => false,
+        }
+    }
+
     #[inline]
     unsafe fn rank_prefetch_superblocks_unchecked(
         &self,
@@ -442,10 +452,7 @@ where
     #[inline(always)]
     #[must_use]
     pub fn rank_prefetch(&self, symbol: T, i: usize) -> Option<usize> {
-        if i > self.n
-            || symbol.as_() >= self.codes_encode.len()
-            || self.codes_encode[symbol.as_() as usize].len == 0
-        {
+        if i > self.n || !self.has_code(symbol) {
             return None;
         }
 
@@ -704,10 +711,7 @@ where
     #[must_use]
     #[inline(always)]
     fn rank(&self, symbol: Self::Item, i: usize) -> Option<usize> {
-        if i > self.n
-            || symbol.as_() >= self.codes_encode.len()
-            || self.codes_encode[symbol.as_()].len == 0
-        {
+        if i > self.n || !self.has_code(symbol) {
             return None;
         }
 
@@ -794,9 +798,7 @@ where
     #[must_use]
     #[inline(always)]
     fn select(&self, symbol: Self::Item, i: usize) -> Option<usize> {
-        if symbol.as_() >= self.codes_encode.len()
-            || self.codes_encode[symbol.as_() as usize].len == 0
-        {
+        if !self.has_code(symbol) {
             return None;
         }
 
